@@ -145,6 +145,23 @@ def dump_module(m):
 JSON_LITS = {"compat.meta_json": 1, "compat.const_json": 1}
 
 
+def canon_lits(x):
+    """The dump sent to the Lean specification: JSON texts re-serialised canonically (compact, UTF-8), which
+    is the text `Export.jsonText false` gives for the same JSON value."""
+    if isinstance(x, list):
+        if len(x) == 3 and x[0] == "apply" and x[1] in JSON_LITS and isinstance(x[2], list) and len(x[2]) == 2:
+            a, b = x[2]
+            if isinstance(b, list) and b[:2] == ["lit", "s"]:
+                try:
+                    b = ["lit", "s", json.dumps(bridge.cjson(json.loads(b[2])), ensure_ascii=False,
+                                                separators=(",", ":"))]
+                except ValueError:
+                    pass
+            return ["apply", x[1], [canon_lits(a), b]]
+        return [canon_lits(e) for e in x]
+    return x
+
+
 def norm_dump(x):
     """Replace the JSON text inside compat.meta_json / compat.const_json by the JSON value it denotes."""
     if isinstance(x, list):
@@ -157,6 +174,8 @@ def norm_dump(x):
                     pass
             return ["apply", x[1], [norm_dump(a), b]]
         return [norm_dump(e) for e in x]
+    if isinstance(x, dict):
+        return {k: norm_dump(v) for k, v in x.items()}
     return x
 
 
@@ -260,8 +279,8 @@ def _own_module(seed: int, size: int, feats: list[str]):
 
         for _ in range(rng.randint((size + 1) // 2, size)):
             k = rng.choice(
-                ["not", "load", "mk", "unpack", "divmod", "nested", "if", "loop", "call", "call", "loadc", "loadc",
-                 "order", "order", "cfg", "loadfn", "tag", "noop"]
+                ["not", "not", "load", "mk", "unpack", "divmod", "nested", "nested", "if", "loop", "call", "call",
+                 "loadc", "loadc", "order", "order", "order", "cfg", "cfg", "loadfn", "tag", "noop"]
             )
             if k == "not":
                 w = pick(tys.Bool)
@@ -444,6 +463,9 @@ def _own_module(seed: int, size: int, feats: list[str]):
         f = mod.define_function(rng.choice(["main", "f", "g", "λ"]) + ("" if rng.random() < 0.5 else str(i)), ins)
         pool = [[w, t] for w, t in zip(f.inputs(), ins) if t != tys.Qubit]
         qs = [w for w, t in zip(f.inputs(), ins) if t == tys.Qubit]
+        if rng.random() < 0.8:  # make most commands applicable
+            pool.append([f.load(rng.choice([val.TRUE, val.FALSE]))[0], tys.Bool])
+            pool.append([f.load(IntVal(rng.randrange(32), 5))[0], I5])
         body(f, pool, [], 0)
         keep = rng.sample(pool, min(len(pool), rng.randint(0, 3)))
         f.set_outputs(*qs, *[p[0] for p in keep])
@@ -538,6 +560,38 @@ def _script(name: str):
         g = mod.define_function("main", [B])
         a = g.call(d, g.inputs()[0])
         g.set_outputs(g.call(d, a[1])[0])
+    elif name == "cond":  # two cases with different bodies: their order is observable
+        g = mod.define_function("main", [B, int_t(5)])
+        c, x = g.inputs()
+        with g.add_if(c, x) as if_:
+            y = if_.add(DivMod(if_.inputs()[0], if_.inputs()[0]))
+            if_.set_outputs(y[0])
+        with if_.add_else() as else_:
+            else_.set_outputs(else_.inputs()[0])
+        g.set_outputs(else_.conditional_node[0])
+    elif name == "meta_nested":  # metadata on a module child, on a nested node, on a node inside a nested DFG
+        g = mod.define_function("main", [B])
+        mod.hugr[g.parent_node].metadata["doc"] = "é\n"
+        a = g.add_op(Not, g.inputs()[0])
+        mod.hugr[a].metadata["k"] = [1, {"x": None}]
+        with g.add_nested(a[0]) as nest:
+            b = nest.add_op(Not, nest.inputs()[0])
+            mod.hugr[b].metadata["note"] = "inner"
+            mod.hugr[b].metadata["n"] = 3
+            nest.set_outputs(b[0])
+        mod.hugr[nest.parent_node].metadata["dfg"] = True
+        g.set_outputs(nest[0])
+    elif name == "fanout":  # one output feeding three inputs; an unconnected input-side name for each stays distinct
+        g = mod.define_function("main", [B])
+        x = g.inputs()[0]
+        a = g.add_op(Not, x)
+        g.set_outputs(a[0], a[0], x)
+    elif name == "tail_loop":
+        g = mod.define_function("main", [int_t(5)])
+        with g.add_tail_loop([], [g.inputs()[0]]) as tl:
+            brk = tl.add(ops.Break(tys.Either([], []))())
+            tl.set_loop_outputs(brk, tl.inputs()[0])
+        g.set_outputs(tl[0])
     elif name == "empty":
         pass
     else:
@@ -546,7 +600,7 @@ def _script(name: str):
 
 
 SCRIPTS = ["call_once", "call_twice", "unused_output", "load_unused", "const_twice", "order", "order_ext", "cfg",
-           "cfg_single", "poly", "decl", "empty"]
+           "cfg_single", "poly", "decl", "cond", "meta_nested", "fanout", "tail_loop", "empty"]
 
 
 def build(spec):
@@ -918,6 +972,35 @@ def check_spec(doc, mod, lenient=False):
 _NAMED = (ValueError, TypeError, NotImplementedError, KeyError, IndexError, AssertionError)
 _CACHE: dict = {}
 
+# core.py evaluates the cases in worker processes and asks for the payloads in the main process: the workers
+# leave the payload text (compressed) in a directory created before the fork, so that the main process does
+# not have to rebuild and re-export every program serially.
+import atexit
+import hashlib
+import shutil
+import tempfile
+import zlib
+
+_PAYDIR = tempfile.mkdtemp(prefix="verif-c12-")
+_OWNER = os.getpid()
+
+
+def _cleanup():
+    if os.getpid() == _OWNER:
+        shutil.rmtree(_PAYDIR, ignore_errors=True)
+
+
+atexit.register(_cleanup)
+
+
+def _payfile(spec):
+    return os.path.join(_PAYDIR, hashlib.sha1(json.dumps(spec, sort_keys=True).encode()).hexdigest())
+
+
+def _payload_text(r):
+    m = r["loaded"]
+    return bridge.json_sexp([r["doc"], None if isinstance(m, dict) else canon_lits(m)])
+
 
 def _err(e):
     n = type(e).__name__
@@ -945,6 +1028,15 @@ def _eval(spec):
             res[name] = dump_module(hh.to_model())
         except Exception as e:  # noqa: BLE001
             res[name] = {"error": _err(e), "detail": repr(e)[:200]}
+    # Package.to_model(): the modules, exported one by one, in order (checked on a quarter of the programs)
+    if spec["kind"] == "script" or spec.get("seed", 1) % 4 == 0:
+        try:
+            from hugr.package import Package
+
+            pk = Package([h2, h]).to_model()
+            res["package"] = [dump_module(m) for m in pk.modules]
+        except Exception as e:  # noqa: BLE001
+            res["package"] = {"error": _err(e), "detail": repr(e)[:200]}
     _CACHE.clear()
     _CACHE[key] = res
     return res
@@ -975,19 +1067,42 @@ def verdicts(fails):
     return {v: v not in bad for v in VERDICTS}
 
 
+def _attrs_check(spec):
+    repo = Path(os.environ.get("HUGR_REPO", "/repo"))
+    py = _py_fields(repo)
+    reads, _ = _rust_attrs(repo)
+    c = spec["class"]
+    return py.get(c), reads.get(c)
+
+
 def run_impl(spec) -> str:
+    if spec["kind"] == "attrs":
+        a, b = _attrs_check(spec)
+        return json.dumps({"python": a, "rust": b})
     try:
         r = _eval(spec)
     except Exception as e:  # noqa: BLE001
         return json.dumps({"build-error": _err(e), "detail": repr(e)[:300]})
     m = r["loaded"]
+    try:
+        with open(_payfile(spec), "wb") as f:
+            f.write(zlib.compress(_payload_text(r).encode(), 1))
+    except OSError:
+        pass
     if isinstance(m, dict):
         return json.dumps({"error": m["error"]})
     fails, _ = check_spec(r["doc"], m)
-    return json.dumps({"module": m, "spec": verdicts(fails)})
+    v = verdicts(fails)
+    return json.dumps({"module": m, "spec": v, "spec_model": v})
 
 
 def oracle(spec):
+    if spec["kind"] == "attrs":
+        a, b = _attrs_check(spec)
+        if a != b:
+            return [Failure("hugr.model." + spec["class"], "attributes-differ-from-rust-binding",
+                            f"python fields {a} vs rust getattr {b}")]
+        return []
     try:
         r = _eval(spec)
     except Exception as e:  # noqa: BLE001
@@ -1004,15 +1119,27 @@ def oracle(spec):
             if f.key() not in keys:
                 keys.add(f.key())
                 out.append(dataclasses.replace(f, detail=f"[{name}] {f.detail}"))
+    if "package" in r and r["package"] != [r["loaded"], r["original"]]:
+        out.append(Failure("Package.to_model", "modules-not-exported-one-by-one-in-order", str(r["package"])[:200]))
     return out
 
 
 def payload(spec):
+    if spec["kind"] == "attrs":
+        return None
+    pf = _payfile(spec)
+    try:
+        with open(pf, "rb") as f:
+            text = zlib.decompress(f.read()).decode()
+        os.unlink(pf)
+        return "export.run", text
+    except (OSError, zlib.error):
+        pass
     try:
         r = _eval(spec)
     except Exception:  # noqa: BLE001
         return None
-    return "export.run", bridge.json_sexp(r["doc"])
+    return "export.run", _payload_text(r)
 
 
 def compare(spec, impl_obs, model_obs) -> bool:
@@ -1044,6 +1171,8 @@ def nontrivial(spec, obs) -> bool:
 
 def stats(spec, obs, counters):
     counters[f"kind:{spec['kind']}"] += 1
+    if spec["kind"] == "attrs":
+        return
     try:
         o = json.loads(obs)
     except ValueError:
@@ -1088,6 +1217,20 @@ def stats(spec, obs, counters):
     calls = re.findall(r'\["apply", "(_[^"]*_\d+)", \[', txt)
     if calls and max(calls.count(c) for c in set(calls)) > 1:
         counters["function-applied-more-than-once"] += 1
+    loads = []
+
+    def find_loads(reg):
+        for nd in reg[4]:
+            if nd[1][0] == "CustomOp" and nd[1][1][1] == "core.load_const":
+                loads.append(json.dumps(nd[1][1][2][1]))
+            for r in nd[4]:
+                find_loads(r)
+
+    find_loads(o["module"][1])
+    if loads and max(loads.count(c) for c in set(loads)) > 1:
+        counters["same-constant-or-function-loaded-more-than-once"] += 1
+    for f in spec.get("feats", []):
+        counters["feat:" + f] += 1
 
 
 # =============================================================================================
@@ -1100,8 +1243,8 @@ def corpus():
 
 
 def _own_spec(rng, maxsize):
-    feats = [f for f in ALL_FEATS if rng.random() < 0.65]
-    return {"kind": "own", "seed": rng.randrange(1 << 30), "size": rng.randint(1, maxsize), "feats": feats}
+    feats = [f for f in ALL_FEATS if rng.random() < 0.75]
+    return {"kind": "own", "seed": rng.randrange(1 << 30), "size": rng.randint(2, maxsize), "feats": feats}
 
 
 def cases(rng, tier):
@@ -1110,7 +1253,9 @@ def cases(rng, tier):
     elif tier == "thorough":
         n09, nown, ms = 3000, 7000, 14
     else:
-        n09, nown, ms = 1500, 4000, 12
+        n09, nown, ms = 600, 1500, 12
+    if tier == "thorough":
+        ms = 12
     for _ in range(n09):
         yield {"kind": "c09", "seed": rng.randrange(1 << 30), "size": rng.randint(0, ms)}
     for _ in range(nown):
@@ -1118,7 +1263,7 @@ def cases(rng, tier):
 
 
 def shrink(spec, pred):
-    if spec["kind"] == "script":
+    if spec["kind"] in ("script", "attrs"):
         return spec
     cur = dict(spec)
 
@@ -1268,9 +1413,7 @@ def obligation_search(build_err, problems):
     except Exception:  # noqa: BLE001
         return None
     for cls in sorted(set(py) | set(reads)):
-        if cls in ("Package",) and cls not in reads:
-            continue
-        if sorted(py.get(cls, [])) != sorted(reads.get(cls, py.get(cls, []) if cls not in reads else [])):
+        if py.get(cls) != reads.get(cls):
             return {"spec": {"kind": "attrs", "class": cls, "python": py.get(cls), "rust": reads.get(cls)},
                     "site": "hugr.model." + cls, "cls": "attributes-differ-from-rust-binding",
                     "detail": f"python fields {py.get(cls)} vs rust getattr {reads.get(cls)}"}
